@@ -53,6 +53,29 @@ impl<'a> Iterator for TokenIterator<'a> {
     type Item = Token;
 
     fn next(&mut self) -> Option<Token> {
+        // Blanks and line continuations are skipped here, in a loop, rather
+        // than by one more call of next() for each of them.
+        loop {
+            match self.0.peek() {
+                Some(' ') | Some('\t') => {
+                    self.0.next();
+                }
+                Some('\\') => {
+                    let mut ahead = self.0.clone();
+                    ahead.next();
+                    match (ahead.next(), ahead.next()) {
+                        (Some('\n'), _) => {
+                            self.0.nth(1);
+                        }
+                        (Some('\r'), Some('\n')) => {
+                            self.0.nth(2);
+                        }
+                        _ => break,
+                    }
+                }
+                _ => break,
+            }
+        }
         if self.0.peek().is_none() {
             return Some(Token::Eof);
         }
